@@ -25,6 +25,7 @@ type Env struct {
 	results  []Term
 	roles    map[string]string
 	self     *FuncInfo
+	groundDiv bool // ground `/` and `%` are abstracted into quotient/remainder constants defined on st (region expressions)
 }
 
 func (e *Env) with(name string, t Term) *Env {
@@ -439,6 +440,9 @@ func (fv *FV) specBin(env *Env, x *SBin) Term {
 		return Term{S: fv.eqTerms(l, r), Sort: sBool}
 	case "!=":
 		return Term{S: not(fv.eqTerms(l, r)), Sort: sBool}
+	}
+	if env.groundDiv && env.qdepth == 0 && (x.Op == "/" || x.Op == "%") {
+		return fv.arith(x.Op, l, r, false, env.st, token.NoPos)
 	}
 	return fv.arith(x.Op, l, r, false, nil, token.NoPos)
 }
